@@ -117,9 +117,7 @@ func (o op) errType() string {
 	return errStringType
 }
 
-// coqOps: the model-level calls this harness op stands for.  End() while
-// panicking is, in the code, "record the panic as an exception event (wall
-// clock time, no user attributes), then end": it is emitted as that pair.
+// coqOps: the model-level calls this harness op stands for (RecordError(nil) stands for none).
 func (o op) coqOps() []string {
 	switch o.Kind {
 	case kRecordNil:
@@ -127,9 +125,7 @@ func (o op) coqOps() []string {
 	case kRead:
 		return []string{"ORead"}
 	case kEndPanic:
-		return []string{
-			vgen.App("ORecordError", vgen.HxS(o.errType()), vgen.HxS(o.Name), "0", "[]", vgen.Bool(o.Stack)),
-			vgen.App("OEnd", vgen.N(uint64(o.TS)))}
+		return []string{vgen.App("OEndPanic", vgen.HxS(o.errType()), vgen.HxS(o.Name), vgen.Bool(o.Stack), vgen.N(uint64(o.TS)))}
 	}
 	return []string{o.coq()}
 }
@@ -495,7 +491,7 @@ func clearEnv() {
 
 // runSpan starts a span with the given options and applies the program to it
 // (the first viaOnStart ops from inside a SpanProcessor's OnStart).
-func runSpan(how int, lim limits, so startOpts, name0 string, viaOnStart int, ops []op) (exported, readback export, err error) {
+func runSpan(how int, lim limits, so startOpts, name0 string, viaOnStart int, ops []op) (exported []export, readback export, err error) {
 	exp := tracetest.NewInMemoryExporter()
 	popts := []sdktrace.TracerProviderOption{sdktrace.WithSyncer(exp)}
 	if so.SAttrs != nil {
@@ -540,9 +536,8 @@ func runSpan(how int, lim limits, so startOpts, name0 string, viaOnStart int, op
 		}
 	}
 	sp.End() // the harness always ends the span (a no-op when the program already did)
-	spans := exp.GetSpans()
-	if len(spans) != 1 {
-		return exported, readback, fmt.Errorf("span exported %d times", len(spans))
+	for _, st := range exp.GetSpans() { // every delivery to the exporter (exactly one is expected; judged by the spec)
+		exported = append(exported, fromStub(st))
 	}
 	ro, ok := sp.(sdktrace.ReadOnlySpan)
 	if !ok {
@@ -551,7 +546,7 @@ func runSpan(how int, lim limits, so startOpts, name0 string, viaOnStart int, op
 	if sp.IsRecording() {
 		return exported, readback, fmt.Errorf("span still recording after End")
 	}
-	return fromStub(spans[0]), fromRO(ro), nil
+	return exported, fromRO(ro), nil
 }
 
 // ---------------------------------------------------------------- generators
@@ -876,10 +871,19 @@ func main() {
 		desc := map[string]any{"limits_given": p.Lim, "limits_given_through": howName, "limits_effective": eff, "start": p.Start.String(), "name": p.Name0,
 			"first_ops_applied_in_OnStart": p.ViaOnStart, "ops": od}
 		guard(desc, func() {
-			ex, rb, err := runSpan(p.How, p.Lim, p.Start, p.Name0, p.ViaOnStart, p.Ops)
+			exs, rb, err := runSpan(p.How, p.Lim, p.Start, p.Name0, p.ViaOnStart, p.Ops)
 			if err != nil {
 				w.Violation(err.Error(), desc)
 				return
+			}
+			desc["times_exported"] = len(exs)
+			ex := rb // description / tallies use the first delivery when there is one
+			if len(exs) > 0 {
+				ex = exs[0]
+			}
+			var exTerms []string
+			for _, e := range exs {
+				exTerms = append(exTerms, e.coq())
 			}
 			var ops []string
 			offered, evs, lks, afterEnd, ended := len(p.Start.Attrs)+len(p.Start.Attrs2), 0, len(p.Start.Links), false, false
@@ -934,7 +938,7 @@ func main() {
 			if p.ViaOnStart > 0 {
 				w.Tally("ops-in-OnStart")
 			}
-			term := vgen.App("CSpan", eff.coq(), p.Start.coq(), vgen.HxS(p.Name0), vgen.List(ops), ex.coq(), rb.coq())
+			term := vgen.App("CSpan", eff.coq(), p.Start.coq(), vgen.HxS(p.Name0), vgen.List(append(ops, "(OEnd 0)")), vgen.List(exTerms), rb.coq())
 			w.Add(term, desc, kind, nontrivial)
 		})
 	}
